@@ -6,4 +6,5 @@ for p in $(python3 -c "import json;print(' '.join(c['property_id'] for c in json
 done
 /venv/bin/python -m coverage combine --data-file=$D/data $D >/dev/null 2>&1
 /venv/bin/python -m coverage report --data-file=$D/data | tee $D/report.txt | tail -50
+/venv/bin/python -m coverage report -m --data-file=$D/data --include="*/_dilation/*,*/transit.py,*/_boss.py,*/_mailbox.py,*/_nameplate.py,*/_rendezvous.py,*/_hints.py,*/_input.py,*/_code.py,*/_key.py,*/_receive.py,*/_send.py,*/_order.py,*/_terminator.py,*/_allocator.py,*/_lister.py,*/wormhole.py,*/observer.py,*/cli/cmd_send.py,*/cli/cmd_receive.py" > $D/missing.txt 2>&1
 rm -f $D/data*
